@@ -97,6 +97,10 @@ def make_pool(rng, size=None):
                 k = bytearray(rng.choice(pool))
                 k[rng.randrange(len(k))] ^= 1 << rng.randrange(8)
                 add(bytes(k))
+            elif pool and r < 0.75:
+                # the same key below a one-byte prefix: what is stored at the top level can
+                # re-appear as a whole sub-trie (identical nodes at two depths)
+                add(bytes([byte()]) + rng.choice(pool))
             else:
                 add(bytes(byte() for _ in range(rng.randint(1, 4))))
     return pool
